@@ -14,7 +14,7 @@ ASSUMPTIONS = [
 ]
 BOUNDS = {
     "quick": "structures: single, unary, pair, pair+isolated, chain-3, triangle (scopes in lexical, reversed and mixed order), pair+unary, pair with variable cost; domain size 2; min and max; all start orders and FIFO interleavings",
-    "thorough": "quick + star-3, two disconnected pairs, ternary, ternary+binary, chain-3 with variable costs, chain-3 and pair with domain 3, str-valued domains",
+    "thorough": "quick + star-3, two disconnected pairs, ternary, ternary+binary, chain-3 with variable costs, pair with domain 3 (all schedules), chain-3 with one domain of size 3 (canonical schedule), str-valued domains",
 }
 OUTSIDE = "more than 4 variables, domains larger than 3, arity above 3, float-valued tables, infinite costs"
 CAP_S = {"quick": 900, "thorough": 5400}
@@ -31,9 +31,11 @@ def jobs(tier):
         for s in ["star3", "two_pairs", "ternary", "ternary_bin", "chain3_vcost"]:
             for mode in ("min", "max"):
                 out.append({"name": "%s-%s" % (s, mode), "spec": spec(s, mode), "start": "interleaved"})
-        for s in ["pair", "chain3"]:
-            for mode in ("min", "max"):
-                out.append({"name": "%s-dom3-%s" % (s, mode), "spec": spec(s, mode, dom=3), "start": "upfront"})
+        for mode in ("min", "max"):
+            out.append({"name": "pair-dom3-%s" % mode, "spec": spec("pair", mode, dom=3), "start": "upfront"})
+            # chain-3 with all domains of size 3 does not exhaust (> 2 million paths in 25 min): one variable of size 3
+            out.append({"name": "chain3-dom322-%s" % mode, "spec": spec("chain3", mode, dom={"x": 3}), "start": "upfront",
+                        "fixed": True})
         out.append({"name": "chain3-str-min", "spec": spec("chain3", "min", domain_kind="str"), "start": "upfront"})
     return out
 
@@ -43,6 +45,7 @@ def run(eng, p):
     inst = Instance(eng, p["spec"])
     cg, comps = build_computations(inst.dcop, "dpop", inst.mode)
     bench = Bench(eng)
+    bench.fixed_schedule = bool(p.get("fixed"))
     for c in comps:
         bench.add(c)
     if p.get("start") == "upfront":
